@@ -37,6 +37,8 @@ type c14Shared struct {
 	sf2   spg.SFFunction // two-character separators, no requirement
 	w6    *spg.WLRecipe  // uses the preset SFDigits2
 	w5    *spg.WLRecipe  // a list of more than 4096 words with one uncapitalisable word near the end
+	c5    spg.CharRecipe // overlapping required sets (the inclusion-exclusion count)
+	c6    spg.CharRecipe // another recipe with overlapping required sets
 }
 
 // needBigList is set while a scenario that uses the 5001-word list runs
@@ -63,6 +65,8 @@ func newC14Shared() *c14Shared {
 	x.c2 = spg.CharRecipe{Length: 3, Allow: spg.Lowers, Require: spg.Digits | spg.Symbols, Exclude: spg.Ambiguous}
 	x.c3 = spg.CharRecipe{Length: 2, Allow: spg.Lowers, Require: spg.Ambiguous}
 	x.sf2 = spg.NewSFFunction(spg.CharRecipe{Length: 2, AllowChars: "xyz"})
+	x.c5 = spg.CharRecipe{Length: 3, AllowChars: "abcd", RequireSets: []string{"ab", "bc"}}
+	x.c6 = spg.CharRecipe{Length: 4, Allow: spg.Digits, RequireSets: []string{"12", "23", "31"}}
 	x.w6 = spg.NewWLRecipe(2, wl)
 	x.w6.SeparatorFunc = spg.SFDigits2
 	if needBigList {
@@ -107,20 +111,25 @@ func runGenNoRaw(g func() (*spg.Password, error)) GenOut {
 }
 
 var c14Calls = map[string]c14Call{
-	"c.Generate":           {"c.Generate", func(x *c14Shared) string { return genStr(x.c.Generate) }},
-	"c.Entropy":            {"c.Entropy", func(x *c14Shared) string { return fmt.Sprintf("%08x", math.Float32bits(x.c.Entropy())) }},
-	"c.Alphabet":           {"c.Alphabet", func(x *c14Shared) string { return x.c.Alphabet() }},
-	"c.SuccessProbability": {"c.SuccessProbability", func(x *c14Shared) string { return fmt.Sprintf("%08x", math.Float32bits(x.c.SuccessProbability())) }},
-	"c2.Generate":          {"c2.Generate", func(x *c14Shared) string { return genStr(x.c2.Generate) }},
-	"c2.Entropy":           {"c2.Entropy", func(x *c14Shared) string { return fmt.Sprintf("%08x", math.Float32bits(x.c2.Entropy())) }},
-	"w.Generate":           {"w.Generate", func(x *c14Shared) string { return genStr(x.w.Generate) }},
-	"w.Entropy":            {"w.Entropy", func(x *c14Shared) string { return fmt.Sprintf("%08x", math.Float32bits(x.w.Entropy())) }},
-	"w.Size":               {"w.Size", func(x *c14Shared) string { return fmt.Sprintf("%d %d", x.w.Size(), x.wl.Size()) }},
-	"w2.Generate":          {"w2.Generate", func(x *c14Shared) string { return genStr(x.w2.Generate) }},
-	"w3.Generate":          {"w3.Generate", func(x *c14Shared) string { return genStr(x.w3.Generate) }},
-	"w3.Entropy":           {"w3.Entropy", func(x *c14Shared) string { return fmt.Sprintf("%08x", math.Float32bits(x.w3.Entropy())) }},
-	"c3.Generate":          {"c3.Generate", func(x *c14Shared) string { return genStr(x.c3.Generate) }},
-	"c3.Entropy":           {"c3.Entropy", func(x *c14Shared) string { return fmt.Sprintf("%08x", math.Float32bits(x.c3.Entropy())) }},
+	"c.Generate":            {"c.Generate", func(x *c14Shared) string { return genStr(x.c.Generate) }},
+	"c.Entropy":             {"c.Entropy", func(x *c14Shared) string { return fmt.Sprintf("%08x", math.Float32bits(x.c.Entropy())) }},
+	"c.Alphabet":            {"c.Alphabet", func(x *c14Shared) string { return x.c.Alphabet() }},
+	"c.SuccessProbability":  {"c.SuccessProbability", func(x *c14Shared) string { return fmt.Sprintf("%08x", math.Float32bits(x.c.SuccessProbability())) }},
+	"c2.Generate":           {"c2.Generate", func(x *c14Shared) string { return genStr(x.c2.Generate) }},
+	"c2.Entropy":            {"c2.Entropy", func(x *c14Shared) string { return fmt.Sprintf("%08x", math.Float32bits(x.c2.Entropy())) }},
+	"w.Generate":            {"w.Generate", func(x *c14Shared) string { return genStr(x.w.Generate) }},
+	"w.Entropy":             {"w.Entropy", func(x *c14Shared) string { return fmt.Sprintf("%08x", math.Float32bits(x.w.Entropy())) }},
+	"w.Size":                {"w.Size", func(x *c14Shared) string { return fmt.Sprintf("%d %d", x.w.Size(), x.wl.Size()) }},
+	"w2.Generate":           {"w2.Generate", func(x *c14Shared) string { return genStr(x.w2.Generate) }},
+	"w3.Generate":           {"w3.Generate", func(x *c14Shared) string { return genStr(x.w3.Generate) }},
+	"w3.Entropy":            {"w3.Entropy", func(x *c14Shared) string { return fmt.Sprintf("%08x", math.Float32bits(x.w3.Entropy())) }},
+	"c3.Generate":           {"c3.Generate", func(x *c14Shared) string { return genStr(x.c3.Generate) }},
+	"c3.Entropy":            {"c3.Entropy", func(x *c14Shared) string { return fmt.Sprintf("%08x", math.Float32bits(x.c3.Entropy())) }},
+	"c5.Generate":           {"c5.Generate", func(x *c14Shared) string { return genStr(x.c5.Generate) }},
+	"c5.Entropy":            {"c5.Entropy", func(x *c14Shared) string { return fmt.Sprintf("%08x", math.Float32bits(x.c5.Entropy())) }},
+	"c5.SuccessProbability": {"c5.SuccessProbability", func(x *c14Shared) string { return fmt.Sprintf("%08x", math.Float32bits(x.c5.SuccessProbability())) }},
+	"c6.Entropy":            {"c6.Entropy", func(x *c14Shared) string { return fmt.Sprintf("%08x", math.Float32bits(x.c6.Entropy())) }},
+	"c6.Generate":           {"c6.Generate", func(x *c14Shared) string { return genStr(x.c6.Generate) }},
 	"sf2()": {"sf2()", func(x *c14Shared) string {
 		s, e := x.sf2()
 		return fmt.Sprintf("%q %08x", s, math.Float32bits(float32(e)))
@@ -151,32 +160,40 @@ var c14Calls = map[string]c14Call{
 type c14Scenario struct {
 	Name    string
 	Threads [][]string
+	// MaxTrials, when not 0, is the value of the package's tuning variable
+	// while the scenario runs (set by the caller before any goroutine starts)
+	MaxTrials int
 }
 
 var c14Scenarios = []c14Scenario{
-	{"Generate||Generate (same character recipe)", [][]string{{"c.Generate"}, {"c.Generate"}}},
-	{"Generate||Entropy (same character recipe)", [][]string{{"c.Generate"}, {"c.Entropy"}}},
-	{"Generate||Alphabet||SuccessProbability", [][]string{{"c.Generate"}, {"c.Alphabet"}, {"c.SuccessProbability"}}},
-	{"WL Generate||WL Generate (same recipe)", [][]string{{"w.Generate"}, {"w.Generate"}}},
-	{"WL Generate||WL Entropy||Size", [][]string{{"w.Generate"}, {"w.Entropy"}, {"w.Size"}}},
-	{"two WL recipes sharing list and SFDigits1", [][]string{{"w.Generate"}, {"w2.Generate"}}},
-	{"sf()||sf() (constructed separator function)", [][]string{{"sf()"}, {"sf()"}}},
-	{"two calls each: Generate,Entropy || Generate,Alphabet", [][]string{{"c.Generate", "c.Entropy"}, {"c.Generate", "c.Alphabet"}}},
-	{"SFDigits1()||w.Generate", [][]string{{"SFDigits1()"}, {"w.Generate"}}},
-	{"three threads Generate on one character recipe", [][]string{{"c.Generate"}, {"c.Generate"}, {"c.Generate"}}},
-	{"Entropy||Entropy||SuccessProbability (same character recipe)", [][]string{{"c.Entropy"}, {"c.Entropy"}, {"c.SuccessProbability"}}},
-	{"Alphabet||Alphabet", [][]string{{"c.Alphabet"}, {"c.Alphabet"}}},
-	{"WL two calls each: Generate,Generate || Generate,Entropy", [][]string{{"w.Generate", "w.Generate"}, {"w.Generate", "w.Entropy"}}},
-	{"w3.Generate (uses sf) || sf()", [][]string{{"w3.Generate"}, {"sf()"}}},
-	{"w3.Generate || w3.Entropy || w.Generate", [][]string{{"w3.Generate"}, {"w3.Entropy"}, {"w.Generate"}}},
-	{"failing separator function: sfBad()||sfBad()", [][]string{{"sfBad()"}, {"sfBad()"}}},
-	{"recipe with failing separator: w4.Generate||w4.Generate||sfBad()", [][]string{{"w4.Generate"}, {"w4.Generate"}, {"sfBad()"}}},
-	{"Require Ambiguous: Generate||Generate||Entropy", [][]string{{"c3.Generate"}, {"c3.Generate"}, {"c3.Entropy"}}},
-	{"two-character separators: sf2()||sf2()", [][]string{{"sf2()"}, {"sf2()"}}},
-	{"SFDigits2: w6.Generate||SFDigits2()||w6.Generate", [][]string{{"w6.Generate"}, {"SFDigits2()"}, {"w6.Generate"}}},
-	{"5001-word list: w5.Generate||w5.Entropy||w5.Generate", [][]string{{"w5.Generate"}, {"w5.Entropy"}, {"w5.Generate"}}},
-	{"class-flag recipe: Generate||Generate", [][]string{{"c2.Generate"}, {"c2.Generate"}}},
-	{"class-flag recipe: Generate||Entropy||Generate(other recipe)", [][]string{{"c2.Generate"}, {"c2.Entropy"}, {"c.Generate"}}},
+	{"Generate||Generate (same character recipe)", [][]string{{"c.Generate"}, {"c.Generate"}}, 0},
+	{"Generate||Entropy (same character recipe)", [][]string{{"c.Generate"}, {"c.Entropy"}}, 0},
+	{"Generate||Alphabet||SuccessProbability", [][]string{{"c.Generate"}, {"c.Alphabet"}, {"c.SuccessProbability"}}, 0},
+	{"WL Generate||WL Generate (same recipe)", [][]string{{"w.Generate"}, {"w.Generate"}}, 0},
+	{"WL Generate||WL Entropy||Size", [][]string{{"w.Generate"}, {"w.Entropy"}, {"w.Size"}}, 0},
+	{"two WL recipes sharing list and SFDigits1", [][]string{{"w.Generate"}, {"w2.Generate"}}, 0},
+	{"sf()||sf() (constructed separator function)", [][]string{{"sf()"}, {"sf()"}}, 0},
+	{"two calls each: Generate,Entropy || Generate,Alphabet", [][]string{{"c.Generate", "c.Entropy"}, {"c.Generate", "c.Alphabet"}}, 0},
+	{"SFDigits1()||w.Generate", [][]string{{"SFDigits1()"}, {"w.Generate"}}, 0},
+	{"three threads Generate on one character recipe", [][]string{{"c.Generate"}, {"c.Generate"}, {"c.Generate"}}, 0},
+	{"Entropy||Entropy||SuccessProbability (same character recipe)", [][]string{{"c.Entropy"}, {"c.Entropy"}, {"c.SuccessProbability"}}, 0},
+	{"Alphabet||Alphabet", [][]string{{"c.Alphabet"}, {"c.Alphabet"}}, 0},
+	{"WL two calls each: Generate,Generate || Generate,Entropy", [][]string{{"w.Generate", "w.Generate"}, {"w.Generate", "w.Entropy"}}, 0},
+	{"w3.Generate (uses sf) || sf()", [][]string{{"w3.Generate"}, {"sf()"}}, 0},
+	{"w3.Generate || w3.Entropy || w.Generate", [][]string{{"w3.Generate"}, {"w3.Entropy"}, {"w.Generate"}}, 0},
+	{"failing separator function: sfBad()||sfBad()", [][]string{{"sfBad()"}, {"sfBad()"}}, 0},
+	{"recipe with failing separator: w4.Generate||w4.Generate||sfBad()", [][]string{{"w4.Generate"}, {"w4.Generate"}, {"sfBad()"}}, 0},
+	{"Require Ambiguous: Generate||Generate||Entropy", [][]string{{"c3.Generate"}, {"c3.Generate"}, {"c3.Entropy"}}, 0},
+	{"two-character separators: sf2()||sf2()", [][]string{{"sf2()"}, {"sf2()"}}, 0},
+	{"SFDigits2: w6.Generate||SFDigits2()||w6.Generate", [][]string{{"w6.Generate"}, {"SFDigits2()"}, {"w6.Generate"}}, 0},
+	{"5001-word list: w5.Generate||w5.Entropy||w5.Generate", [][]string{{"w5.Generate"}, {"w5.Entropy"}, {"w5.Generate"}}, 0},
+	{Name: "overlapping required sets: c5.Entropy||c5.SuccessProbability||c5.Generate", Threads: [][]string{{"c5.Entropy"}, {"c5.SuccessProbability"}, {"c5.Generate"}}},
+	{Name: "overlapping required sets, two recipes: c5.Entropy||c6.Entropy||c6.Generate", Threads: [][]string{{"c5.Entropy"}, {"c6.Entropy"}, {"c6.Generate"}}},
+	{Name: "MaxTrials=10: w2.Generate||c.Generate||SFDigits1()", Threads: [][]string{{"w2.Generate"}, {"c.Generate"}, {"SFDigits1()"}}, MaxTrials: 10},
+	{Name: "MaxTrials=10: sf()||c2.Generate", Threads: [][]string{{"sf()"}, {"c2.Generate"}}, MaxTrials: 10},
+	{Name: "MaxTrials=1000: w3.Generate||c.Entropy||c.Generate", Threads: [][]string{{"w3.Generate"}, {"c.Entropy"}, {"c.Generate"}}, MaxTrials: 1000},
+	{"class-flag recipe: Generate||Generate", [][]string{{"c2.Generate"}, {"c2.Generate"}}, 0},
+	{"class-flag recipe: Generate||Entropy||Generate(other recipe)", [][]string{{"c2.Generate"}, {"c2.Entropy"}, {"c.Generate"}}, 0},
 }
 
 // per-thread tape policies: thread 0's first candidate fails the requirement
@@ -241,7 +258,15 @@ func c14Scenario1(c *core.Ctx, si int, sc c14Scenario, bound int) {
 			}
 		}
 	}
+	trials0 := spg.MaxTrials
+	if sc.MaxTrials != 0 {
+		spg.MaxTrials = sc.MaxTrials
+	}
+	defer func() { spg.MaxTrials = trials0 }()
 	computeWant := func() {
+		if sc.MaxTrials != 0 {
+			spg.MaxTrials = sc.MaxTrials
+		}
 		want = make([][]string, n)
 		for i, calls := range sc.Threads {
 			x0 := newC14Shared()
@@ -288,6 +313,9 @@ func c14Scenario1(c *core.Ctx, si int, sc c14Scenario, bound int) {
 		plan := append([]int{}, ch.Prefix()...)
 		if useFixed {
 			plan = fixedPlan
+		}
+		if sc.MaxTrials != 0 {
+			spg.MaxTrials = sc.MaxTrials
 		}
 		x = newC14Shared()
 		for i := range tapes {
